@@ -247,6 +247,10 @@ def check(fx, rep, tier):
             f"the `{f}` produced by merging are not all applied to the forest (`{op}`) after the class loop: {'they are never collected' if dst is None else 'the application loop is missing, conditional or filtered'}",
             sample={"rule": "R14.4", "merge_output": f, "applied_with": op, "ok": ok},
         )
+    # packed merges derive their fresh spans from sorted unique boundaries (otherwise unify panics / yields nonsense spans)
+    from .c12 import check_merge_boundaries
+
+    check_merge_boundaries(fx, rep, "R14.3")
     return rep.finish(
         "Post-condition skeleton of unification: the per-class body stores exactly a singleton set unconditionally, progress is flagged on every fold step and the round loop exits only without progress; "
         "equalities become unions before the rounds and are constructed nowhere else; every diagonal constructor arm of merge emits one equality per type-variable field of the enum definition; "
